@@ -163,9 +163,64 @@ def with_to_acquire(src: str) -> str:
     return ast.unparse(tree) + "\n"
 
 
+# --------------------------------------------------------------------------------------------- invert if/else
+class _InvertIf(ast.NodeTransformer):
+    """`if c: A else: B`  ->  `if not c: B else: A`  for two-armed ifs whose else arm is not an elif chain."""
+
+    def visit_If(self, n):
+        self.generic_visit(n)
+        if n.orelse and not (len(n.orelse) == 1 and isinstance(n.orelse[0], ast.If)):
+            test = n.test.operand if isinstance(n.test, ast.UnaryOp) and isinstance(n.test.op, ast.Not) else ast.UnaryOp(ast.Not(), n.test)
+            return ast.copy_location(ast.If(test, n.orelse, n.body), n)
+        return n
+
+
+def invert_if(src: str) -> str:
+    tree = _InvertIf().visit(ast.parse(src))
+    ast.fix_missing_locations(tree)
+    return ast.unparse(tree) + "\n"
+
+
+# --------------------------------------------------------------------------------------------- temporaries
+class _Temps(ast.NodeTransformer):
+    """`x = f(...)`  ->  `tmpN = f(...); x = tmpN`   (function bodies only, simple name targets, call values)."""
+
+    def __init__(self):
+        self.n = 0
+        self.in_fn = 0
+
+    def visit_FunctionDef(self, node):
+        self.in_fn += 1
+        self.generic_visit(node)
+        self.in_fn -= 1
+        return node
+
+    visit_AsyncFunctionDef = visit_FunctionDef
+
+    def visit_Lambda(self, node):
+        return node
+
+    def visit_Assign(self, node):
+        if self.in_fn and len(node.targets) == 1 and isinstance(node.targets[0], ast.Name) and isinstance(node.value, ast.Call):
+            self.n += 1
+            t = f"tmp{self.n}_"
+            a = ast.copy_location(ast.Assign([ast.Name(t, ast.Store())], node.value), node)
+            b = ast.copy_location(ast.Assign(node.targets, ast.Name(t, ast.Load())), node)
+            return [a, b]
+        return node
+
+
+def temporaries(src: str) -> str:
+    tree = _Temps().visit(ast.parse(src))
+    ast.fix_missing_locations(tree)
+    return ast.unparse(tree) + "\n"
+
+
 TRANSFORMS = {
     "roundtrip": roundtrip,
     "rename-locals": rename_locals,
     "suppress-to-try": suppress_to_try,
     "with-to-acquire": with_to_acquire,
+    "invert-if": invert_if,
+    "temporaries": temporaries,
 }
